@@ -178,6 +178,20 @@ def execute(case):
                         bad("read-pattern-not-current-rpc", f"cached pixel reads {pat} != uncached {ref_pattern}")
             except Exception as e:
                 bad("cached-load-raises", f"loading the cached tree: {type(e).__name__}: {str(e)[:120]}", exc=type(e).__name__)
+        # the same cache used again in the same process with another rpc: still the current call's rpc
+        if made and tree is not None:
+            rpc_b = {1: 3, 3: 1024, 1024: 1}[rpc_r]
+            try:
+                ref_b_tree = prod.open(use_cache=False, records_per_chunk=rpc_b)
+                ref_b = treesnap.snapshot(ref_b_tree)
+                tree_b = prod.open(use_cache=True, records_per_chunk=rpc_b)
+                d = treesnap.diff(ref_b, treesnap.snapshot(tree_b))
+                if d:
+                    bad("second-cached-open-differs", f"cached open at rpc={rpc_b} after one at rpc={rpc_r}: {treesnap.short(d, 2)}")
+                if kind == "mcfs" and load_pattern(tree_b, spec, kind) != load_pattern(ref_b_tree, spec, kind):
+                    bad("second-cached-open-read-pattern", f"cached open at rpc={rpc_b} after one at rpc={rpc_r} reads pixels in other groups than an uncached open")
+            except Exception as e:
+                bad("second-cached-open-raises", f"{type(e).__name__}: {str(e)[:120]}", exc=type(e).__name__)
         # (iii) part 2: poisoned but valid index at every location, use_cache=False must not care
         if made:
             try:
@@ -196,6 +210,21 @@ def execute(case):
                 # and the poisoned cache is indeed 'usable': use_cache=True must now differ (sanity of the poison)
                 t3 = prod.open(use_cache=True, records_per_chunk=rpc_r)
                 poisoned_visible = bool(treesnap.diff(ref, treesnap.snapshot(t3, load=False)))
+                # use_cache=False together with create_cache=True: still no index consulted, and the
+                # user-cache index is rewritten from the image (afterwards cached opens are right again)
+                with cachelab.recording():
+                    t4 = prod.open(use_cache=False, create_cache=True, records_per_chunk=rpc_r)
+                idx_reads = [e for e in cachelab.local_events() if e[0] == "open" and is_index(e[1]) and not any(c in e[2] for c in "wax+")]
+                idx_reads += [e for e in vfs.LOG if e[0] in ("open", "read", "info") and is_index(e[1])]
+                if idx_reads:
+                    bad("use_cache_false-consults-index", f"use_cache=False, create_cache=True read {idx_reads[:2]}")
+                d = treesnap.diff(ref, treesnap.snapshot(t4))
+                if d:
+                    bad("use_cache_false-uses-index", f"use_cache=False, create_cache=True with a poisoned index: {treesnap.short(d, 2)}")
+                t5 = prod.open(use_cache=True, records_per_chunk=rpc_r)
+                d = treesnap.diff(ref, treesnap.snapshot(t5))
+                if d:
+                    bad("cache-not-refreshed", f"after use_cache=False, create_cache=True a cached open still differs: {treesnap.short(d, 2)}")
             except Exception as e:
                 bad("poison-step-raises", f"{type(e).__name__}: {str(e)[:120]}", exc=type(e).__name__)
                 poisoned_visible = None
